@@ -1,4 +1,5 @@
 import CnbVerif.Lemmas.ArgvPack
+import CnbVerif.Lemmas.PackOutput
 /-!
 # C17 — libcnb-test passes configuration to pack and docker completely, unambiguously
 
@@ -12,6 +13,12 @@ Two statements do **not** hold in full under those grammars: a bind-mount path c
 (`,` `"` CR LF) is not read back intact from `--mount`, nor a buildpack reference containing one (or the empty
 reference) from pack's `--buildpack` string slice. They are proved with that hypothesis (`…_partial`), the full
 statements are kept (`…FullStatement`) and refuted by concrete witnesses (finding D6).
+
+The clause "every build configuration results in **one** pack build invocation" is about the scenario model
+(`Model/TestRunner.lean`: which commands a chain of `build`/`rebuild` calls issues) with the results of the external
+commands as an input (`Model/PackOutput.lean`: exit status, stdout, stderr per invocation): theorems
+`one_pack_build_per_build_call`, `invocations_independent_of_tool_output`, `pack_output_handed_over`,
+`hand_over_one_per_invocation`, `lossy_identity_on_ascii`.
 -/
 namespace CnbVerif.C17
 open CnbVerif CnbVerif.Argv CnbVerif.ArgvLemmas CnbVerif.Spec.Pflag
@@ -211,6 +218,105 @@ theorem generated_names_ok (sfx : Word) (h : ∀ b ∈ sfx, 97 ≤ b ∧ b ≤ 1
   refine ⟨by simp, ?_⟩
   simp [NameSafe, hn]
 
+/-! ### one invocation per build call, whatever the tools return -/
+
+open CnbVerif.TestRunner CnbVerif.PackOutput in
+/-- **One `pack build` per `build`/`rebuild` call (count and argv).** For every scenario (chain of build calls with arbitrary
+closures) and **every oracle** — i.e. whatever exit status any `pack` or `docker` invocation returns, in particular whatever the
+`pack build`s themselves return: the `pack build` commands of the run are, in order, exactly one for each of the first `k` build
+calls of the chain, each the command of that call's own configuration (`packBuildCommand`: builder, buildpacks in order, env,
+image and cache names of the run; path = the fixture, or a temporary directory when a preprocessor is configured); `k` is the
+whole chain when the run ends normally. No build call is answered by two invocations, none by another call's. -/
+theorem one_pack_build_per_build_call (o : Oracle) (sc : Scenario) :
+    ∃ k, k ≤ sc.length ∧ Paired (BuildOf (resourcesFor (nameWord 0))) (sc.take k) (pbs (run o sc).2.log) ∧
+      ((run o sc).1 = .ok → k = sc.length) := by
+  obtain ⟨k, hk, added, hlog, hall, hok⟩ := evalBuilds_pbs o (resourcesFor (nameWord 0)) sc initSt
+  refine ⟨k, hk, ?_, hok⟩
+  have : pbs (run o sc).2.log = added := by
+    simp only [run]; rw [hlog]; simp [initSt]
+  rw [this]; exact hall
+
+open CnbVerif.TestRunner CnbVerif.PackOutput in
+/-- **The invocations do not depend on what the tools print.** Two worlds (scripts of tool results: exit status, stdout,
+stderr per invocation) that agree on which invocations end with status zero produce the same run: the same commands with the
+same argv in the same order, the same outcome, the same temporary directories. The texts and the particular non-zero
+status are not looked at by anything that decides what is run. -/
+theorem invocations_independent_of_tool_output (s1 s2 : Script) (fallback : Oracle) (sc : Scenario)
+    (h : ∀ p n, (s1.find p n).map statusOf = (s2.find p n).map statusOf) :
+    run (scriptOracle s1 fallback) sc = run (scriptOracle s2 fallback) sc := by
+  have : scriptOracle s1 fallback = scriptOracle s2 fallback := by
+    funext i c n
+    have := h c.prog n
+    simp only [scriptOracle]
+    cases h1 : s1.find c.prog n <;> cases h2 : s2.find c.prog n <;> simp [h1, h2] at this ⊢
+    exact this
+  rw [this]
+
+open CnbVerif.PackOutput in
+/-- **The pack output handed to the test is that of the one invocation.** For every expectation and every result of the
+invocation (any status, any bytes on either stream): the build either gives the test a `TestContext` — exactly when the status
+is the expected kind — whose `pack_stdout` / `pack_stderr` are the invocation's stdout / stderr (as text: `from_utf8_lossy`), or
+panics — exactly when it is not — with a message that quotes both streams of that invocation. -/
+theorem pack_output_handed_over (expectSuccess : Bool) (t : ToolOutput) :
+    match handOver expectSuccess (runCommand w!"pack" t) with
+    | .context so se => expectSuccess = decide (t.exit = 0) ∧ so = fromUtf8Lossy t.stdout ∧ se = fromUtf8Lossy t.stderr
+    | .panic msg => expectSuccess ≠ decide (t.exit = 0) ∧ fromUtf8Lossy t.stdout <:+: msg ∧ fromUtf8Lossy t.stderr <:+: msg
+    | .unknown => False := by
+  have hrun : runCommand w!"pack" t = if t.exit = 0 then .ok ⟨fromUtf8Lossy t.stdout, fromUtf8Lossy t.stderr⟩
+      else .error (.nonZero w!"pack" t.exit ⟨fromUtf8Lossy t.stdout, fromUtf8Lossy t.stderr⟩) := rfl
+  rw [hrun]
+  by_cases hz : t.exit = 0
+  · rw [if_pos hz]
+    cases expectSuccess
+    · show false ≠ decide (t.exit = 0) ∧ _ ∧ _
+      exact ⟨by simp [hz], infix_prepend _ (display_quotes ⟨_, _⟩).1, infix_prepend _ (display_quotes ⟨_, _⟩).2⟩
+    · show true = decide (t.exit = 0) ∧ _ ∧ _
+      exact ⟨by simp [hz], rfl, rfl⟩
+  · rw [if_neg hz]
+    cases expectSuccess
+    · show false = decide (t.exit = 0) ∧ _ ∧ _
+      exact ⟨by simp [hz], rfl, rfl⟩
+    · show true ≠ decide (t.exit = 0) ∧ _ ∧ _
+      exact ⟨by simp [hz], infix_prepend _ (error_display_quotes _ _ ⟨_, _⟩).1, infix_prepend _ (error_display_quotes _ _ ⟨_, _⟩).2⟩
+
+open CnbVerif.TestRunner CnbVerif.PackOutput in
+/-- **One hand-over per invocation.** What the scenario-level model reports as handed to the test (`handOvers`) pairs the build
+calls with the `pack build` entries of the log one to one. -/
+theorem hand_over_one_per_invocation (s : Script) (sc : Scenario) (log : List Entry) :
+    (handOvers s sc log).length = min sc.length (pbs log).length := by
+  have hlen : ∀ (l : List Entry) (n : Nat), (packBuildsIn l n).length = (pbs l).length := by
+    intro l
+    induction l with
+    | nil => intro n; rfl
+    | cons e r ih =>
+      intro n
+      have ih' := ih
+      simp only [pbs] at ih'
+      cases hc : e.cmd <;> simp [packBuildsIn, pbs, isPB, hc, ih', List.filter_cons]
+  simp [handOvers, hlen]
+
+open CnbVerif.PackOutput in
+/-- **Text is handed over unchanged.** On ASCII output (`pack`'s and `docker`'s own messages) the lossy decoding is the
+identity, so the test sees the bytes the invocation printed. -/
+theorem lossy_identity_on_ascii (s : Bytes) (h : ∀ b ∈ s, b < 128) : fromUtf8Lossy s = s := by
+  have key : ∀ (f : Nat) (l : List Nat), l.length ≤ f → (∀ b ∈ l, b < 128) → lossyFuel f l = l := by
+    intro f
+    induction f with
+    | zero => intro l hl _; cases l with
+      | nil => rfl
+      | cons a r => simp at hl
+    | succ f ih =>
+      intro l hl hb
+      cases l with
+      | nil => rfl
+      | cons a r =>
+        have ha : a < 128 := hb a (by simp)
+        have hs : chunkStep a r = (1, true) := by simp [chunkStep, ha]
+        simp only [lossyFuel, hs, if_true, List.take_succ_cons, List.take_zero, List.drop_succ_cons, List.drop_zero]
+        rw [ih r (by simpa using hl) (fun b hbm => hb b (by simp [hbm]))]
+        rfl
+  exact key s.length s (Nat.le_refl _) h
+
 /-! ### non-vacuity: the hypotheses are met by non-trivial values -/
 
 /-- a configuration with leading dashes, `=`, spaces, empty strings, Unicode (UTF-8 bytes of `é`) everywhere allowed -/
@@ -239,5 +345,25 @@ example : ImageNameOk w!"libcnbtest_abcdefghijkl" ∧ BuildpacksCsvSafe sampleBu
 
 example : (Spec.Pack.parsePackBuild (packBuildArgv (packBuildCommand (resourcesFor w!"img") sampleBuild w!"/m/fixtures/app"))).map
     (·.buildpacks) = some [w!"heroku/a b", w!"--evil", w!"-b=c"] := by decide
+
+/-- a failing `pack build` whose stderr is a registry's rate-limit message, expected to fail: the test gets that text -/
+example : PackOutput.handOver false (PackOutput.runCommand w!"pack" ⟨1, w!"pack output\n", w!"toomanyrequests: rate limit\n"⟩)
+    = .context w!"pack output\n" w!"toomanyrequests: rate limit\n" := by decide
+
+/-- ill-formed UTF-8 is replaced chunk by chunk: `E2 82` (truncated), `FF`, then `A` -/
+example : PackOutput.fromUtf8Lossy [226, 130, 255, 65] = [239, 191, 189, 239, 191, 189, 65] := by decide
+
+/-- a chain of two builds whose first `pack build` fails as expected (scripted, with output), a closure that runs a shell
+command in between: two `pack build` invocations, one per call -/
+def sampleChain : TestRunner.Scenario :=
+  [⟨⟨sampleBuild, true, false, false, w!"x86_64-unknown-linux-musl", .ok⟩, [.runShell w!"true"]⟩,
+   ⟨⟨sampleBuild, true, true, true, w!"x86_64-unknown-linux-musl", .ok⟩, []⟩]
+
+def sampleScript : PackOutput.Script :=
+  [(.pack, 0, ⟨1, w!"", w!"connection reset by peer"⟩), (.pack, 1, ⟨0, w!"ok", w!""⟩)]
+
+example : ((TestRunner.run (PackOutput.scriptOracle sampleScript (fun _ _ _ => none)) sampleChain).1 = .ok)
+    ∧ (PackOutput.pbs (TestRunner.run (PackOutput.scriptOracle sampleScript (fun _ _ _ => none)) sampleChain).2.log).length = 2 := by
+  decide
 
 end CnbVerif.C17
